@@ -193,3 +193,24 @@ func vh_sequential() {
 	id, ok := g.GetStream()
 	vAssert(ok && id == 77, "C08/sequential/released-id-is-reused")
 }
+
+// the generator every connection starts from: capacity and initial bitmap for each protocol version
+// (1..127 usable ids for v1-2, 1..32767 for v3+; only the reserved id 0 is marked in use)
+func vh_new() {
+	proto := 1 + vChoose("proto", 5)
+	g := New(proto)
+	want := 128
+	if proto > 2 {
+		want = 32768
+	}
+	vAssert(g.NumStreams == want, "C08/new/capacity-is-the-protocols-id-range")
+	vAssert(len(g.streams)*bucketBits == g.NumStreams && int(g.numBuckets) == len(g.streams), "C08/new/one-bit-per-id")
+	vAssert(g.Available() == want-1, "C08/new/all-non-reserved-ids-available")
+	clean := g.streams[0] == 1<<63
+	for i := 1; i < len(g.streams); i++ {
+		clean = clean && g.streams[i] == 0
+	}
+	vAssert(clean, "C08/new/only-id-0-is-reserved")
+	vAssert(g.offset < g.numBuckets, "C08/new/offset-in-range")
+	vObserve("n", g.NumStreams)
+}
